@@ -40,6 +40,7 @@ type Peer struct {
 	Announced   bool // sent bitfield/unchoke
 	ClosedSeen  bool
 	ClaimLog    []Claim
+	AllowedFast map[uint32]bool // pieces the client granted us as allowed-fast
 	replyHS     *[20]byte // outgoing connection from the client: answer its handshake with this info-hash
 	wrote       bool
 }
@@ -78,6 +79,7 @@ func (p *Peer) reset() {
 	p.raw, p.GotHS, p.Inbox, p.seen = nil, false, nil, 0
 	p.ClientHave, p.HaveAll, p.Interested, p.ClientChoke = map[uint32]bool{}, false, false, true
 	p.Requests, p.Rejected, p.PieceMsgs, p.SentHS, p.Announced, p.ClosedSeen = nil, nil, nil, false, false, false
+	p.AllowedFast = nil
 }
 
 func (p *Peer) SendRaw(b []byte) {
@@ -165,6 +167,11 @@ func (p *Peer) Process() {
 			p.Rejected = append(p.Rejected, Req{m.Index(), m.Begin(), m.Length()})
 		case refcodec.MsgPiece:
 			p.PieceMsgs = append(p.PieceMsgs, m)
+		case refcodec.MsgAllowedFast:
+			if p.AllowedFast == nil {
+				p.AllowedFast = map[uint32]bool{}
+			}
+			p.AllowedFast[m.Index()] = true
 		}
 	}
 	if p.Conn.RemoteClosed() {
